@@ -10,6 +10,7 @@ from .obs import S, A, T
 TEXT_POOLS = [
     'ab', 'abc', 'ab-', 'ab ', 'a-b ', 'xab', 'aAb', 'ab\t', 'ab\n', 'a b\n', 'ab:', 'ab+', 'a0-5', 'aß', 'aǅb',
     'a\U0001d4b3b', 'é-a', 'ab\r\n', 'ab-\t ', 'Ab c',
+    'a\x0bb\x0c', 'ab\x85\u2028', 'a\x1cb\r', 'a\u0130b', '\u0149ab', 'ab \xa0', 'aB\u00df\n',
 ]
 
 ALL_KINDS = ['new', 'conv', 'apply', 'remove', 'clear', 'slice', 'index', 'clip', 'iter', 'add', 'iadd', 'join', 'pad',
@@ -266,6 +267,11 @@ class Gen:
             return self.g_bad(world)
         k = r.choices(self.kinds, self.weights)[0]
         op = getattr(self, 'g_' + k)(world)
+        if op['op'] in ('apply', 'remove', 'pad', 'replace', 'split', 'find') and r.random() < 0.2:
+            op['kw'] = r.choice([1, 2, 3])   # keyword / defaulted argument forms of the same call
+        if op['op'] == 'pad' and r.random() < 0.15:
+            op['default_fill'] = True
+            op['fill'] = ' ' if op['how'] != 'zfill' else op['fill']
         if self.oracle.prop == 'C15' and r.random() < 0.5:
             op['probe_settings'] = [self.setting_text() for _ in range(r.choice([1, 2, 3]))]
         if self.oracle.prop == 'C13' and r.random() < 0.5:
@@ -305,14 +311,15 @@ class Gen:
         if a is None:
             a = 0 if r.random() < 0.8 else None
         return {'op': 'apply', 'r': s, 'd': self.slot(), 'ip': self.ip(), 'st': self.settings(allow_empty=True),
-                'a': a if a is not None else 0, 'b': b, 'top': r.random() < 0.6}
+                'a': a if (a is not None or r.random() < 0.3) else 0, 'b': b, 'top': r.random() < 0.6}
 
     def g_remove(self, world):
         r = self.rng
         s = self.recv_slot(world)
         a, b = self.rng_pair(world.obs[s])
         st = None if r.random() < 0.25 else self.selection(world.obs[s])
-        return {'op': 'remove', 'r': s, 'd': self.slot(), 'ip': self.ip(), 'st': st, 'a': a if a is not None else 0, 'b': b}
+        return {'op': 'remove', 'r': s, 'd': self.slot(), 'ip': self.ip(), 'st': st,
+                'a': a if (a is not None or r.random() < 0.3) else 0, 'b': b}
 
     def g_clear(self, world):
         return {'op': 'clear', 'r': self.recv_slot(world), 'd': self.slot(), 'ip': self.ip()}
@@ -359,7 +366,10 @@ class Gen:
 
     def width(self, n):
         r = self.rng
-        return r.choice([0, n - 1, n, n + 1, n + 2, n + 3, n + 4, n + 7, 2 * n + 1, r.randint(0, 20), 40])
+        w = r.choice([0, n - 1, n, n + 1, n + 2, n + 3, n + 4, n + 7, 2 * n + 1, r.randint(0, 20), 40])
+        if self.oracle.prop == 'C09' and r.random() < 0.03:
+            w = r.choice([1000, 10 ** 4])
+        return w
 
     def fill(self):
         return self.rng.choice([' ', ' ', '*', ':', '+', '-', '0', '5', '<', '^', '\t', 'é', '\U0001d4b3'])
@@ -369,8 +379,13 @@ class Gen:
         s = self.recv_slot(world, maxlen=self.MAXLEN)
         n = len(world.obs[s].text)
         how = r.choice(['ljust', 'rjust', 'center', 'center', 'zfill'])
-        return {'op': 'pad', 'r': s, 'd': self.slot(), 'ip': self.ip(), 'how': how, 'w': max(0, self.width(n)),
-                'fill': self.fill(), 'ext': r.random() < 0.6}
+        op = {'op': 'pad', 'r': s, 'd': self.slot(), 'ip': self.ip(), 'how': how, 'w': max(0, self.width(n)),
+              'fill': self.fill(), 'ext': r.random() < 0.6}
+        if op['w'] > 100:
+            # huge results are produced (termination, consistency) but not kept in the world
+            op['ip'] = False
+            op['d'] = None
+        return op
 
     def spec(self, n):
         r = self.rng
@@ -562,7 +577,8 @@ class Gen:
         a = self.index(o, allow_out=False)
         b = self.index(o, allow_out=False)
         st = self.selection(o) if r.random() < 0.9 else None
-        return {'op': 'find', 'r': s, 'st': st, 'a': a if a is not None else 0, 'b': b, 'rev': r.random() < 0.3}
+        return {'op': 'find', 'r': s, 'st': st, 'a': a if (a is not None or r.random() < 0.3) else 0, 'b': b,
+                'rev': r.random() < 0.3}
 
     def g_query(self, world):
         r = self.rng
